@@ -11,6 +11,16 @@ import (
 type literalValidator struct {
 	node_   schema.Node
 	parent_ validator
+
+	// nullOnly the validator admits nothing but the literal null (the extra
+	// alternative of a nullable node).
+	nullOnly bool
+}
+
+func newNullValidator(node schema.Node, parent validator) *literalValidator {
+	v := newLiteralValidator(node, parent)
+	v.nullOnly = true
+	return v
 }
 
 func newLiteralValidator(node schema.Node, parent validator) *literalValidator {
@@ -46,6 +56,9 @@ func (v *literalValidator) feed(jsonLexeme lexeme.LexEvent) ([]validator, bool) 
 	case lexeme.LiteralBegin:
 		return nil, false
 	case lexeme.LiteralEnd:
+		if v.nullOnly && jsonLexeme.Value().String() != "null" {
+			panic(errors.Format(errors.ErrInvalidValueType, jsonLexeme.Value().String(), "null"))
+		}
 		ValidateLiteralValue(v.node_, jsonLexeme.Value()) // can panic
 		return nil, true
 	}
